@@ -118,4 +118,44 @@ def gcfiFramesOk (a : Arch) (mask : Nat) (frames : List CfiFr) : Bool :=
     decide (4096 ≤ c.ret) && decide (c.ret ≤ a.regMax) && decide (stripOf a mask c.ret = c.ret) &&
     (c.n == 0 || !c.saves || (decide (2 ≤ c.n) && decide (c.fpv ≤ a.regMax) && decide (stripOf a mask c.fpv = c.fpv)))
 
+/-! ### the side condition from record-level facts (one-module worlds)
+
+  `gcfiSide` goes through the module table and the CFI range table; `gcfiSideOne` is the same
+  condition with a linear search over the module's list of STACK CFI records. Under `oneModOkB`
+  the second implies the first (`gcfiSide_of_one`, MdProofs/Lemmas/WalkGenSide.lean). -/
+
+/-- the record's range (relative to the module base) contains `instr` -/
+def CfiRec.covers (m : Module) (instr : Nat) (c : CfiRec) : Bool :=
+  decide (m.base + c.addr ≤ instr) && decide (instr < m.base + c.addr + c.size)
+
+/-- the first STACK CFI record of the list that covers `instr`: a linear search -/
+def cfiCover (m : Module) (sf : SymFile) (instr : Nat) : Option CfiRec :=
+  sf.cfis.find? (CfiRec.covers m instr)
+
+/-- `gcfiSide` with the linear search in place of the range tables; the outermost lookup address
+    lies inside the module (in a function without STACK CFI) -/
+def gcfiSideOne (m : Module) (sf : SymFile) (a : Arch) : Nat → Bool → List CfiFr → Bool
+  | instr, _, [] =>
+    decide (m.base ≤ instr) && decide (instr < m.base + m.size) && (cfiCover m sf instr).isNone
+  | instr, first, c :: rest =>
+    (match cfiCover m sf instr with
+     | none => false
+     | some rec =>
+       rec.adds.isEmpty &&
+       (if c.n = 0 then first && a.leafOk && tokenize rec.init == leafToks a
+        else tokenize rec.init == canonicalToks a (a.ptr * c.n) c.saves)) &&
+    gcfiSideOne m sf a (c.ret - a.adj) false rest
+
+/-- decidable form of the record-level well-formedness of a one-module world (`OneModOk`,
+    MdProofs/Lemmas/WalkGenSide.lean): the module has a range, every STACK CFI record is non-empty
+    and inside the module, the records are pairwise disjoint -/
+def disjB : List CfiRec → Bool
+  | [] => true
+  | c :: rest =>
+    rest.all (fun d => decide (c.addr + c.size ≤ d.addr) || decide (d.addr + d.size ≤ c.addr)) && disjB rest
+
+def oneModOkB (m : Module) (sf : SymFile) : Bool :=
+  decide (0 < m.size) && decide (m.base + m.size ≤ U64MAX) &&
+  sf.cfis.all (fun c => decide (0 < c.size) && decide (c.addr + c.size ≤ m.size)) && disjB sf.cfis
+
 end MdModel.Walk
